@@ -3,6 +3,7 @@ CONSTANTS
  Family = "tiny"
  MaxMid = 11
  MaxTiny = 9
+ CarryTail = 2
  CarryLens = {}
 INIT Init
 NEXT Next
